@@ -222,7 +222,7 @@ func wireHandshake(run *vh.Run) {
 	savedGenesis := chain.Genesis
 	defer func() { chain.Genesis = savedGenesis }()
 
-	for i := 0; i < run.Pick(1500, 12000); i++ {
+	for i := 0; i < run.Pick(2500, 16000); i++ {
 		w := worlds[rng.Intn(len(worlds))]
 		if i < 2*len(worlds) {
 			w = worlds[i%len(worlds)]
